@@ -508,6 +508,10 @@ class World(object):
             c.clean, c.keepalive, c.level = bool(clean), ka, ver if ver in (3, 4) else 4
             c.connect_step = self.step
 
+    def ev_reconn2(self, a, clean=True, ka=0, ver=4):
+        """connect() called again on a protocol object that already went through a handshake."""
+        self.ev_connect(a, clean, ka, ver)
+
     def ev_disconnect(self, a):
         c = self.conn(a)
         self._api('disconnect', c, {}, lambda r: c.proto.disconnect())
